@@ -92,6 +92,7 @@ def run(ctx):
     row_rule(ctx, syn)
     emptyrow_rule(ctx, syn)
     triple_rule(ctx, syn)
+    exclusive_rule(ctx, syn)
     compress_rule(ctx, syn)
     expand_rule(ctx, syn)
     guard_rule(ctx, syn)
@@ -1056,6 +1057,83 @@ def emptyrow_rule(ctx, syn, rid="C01.EMPTYROW"):
                 ctx.report(r, "empty-row" if want is None else "row", "RelationMap::get(%d) on the rows [[], [5], [], [2, 9]] answers %r, expected %r: an item without relations is told apart from one with relations by `get(x).is_none()` (a root-store resource with a lower handle than a sub-store's resource is otherwise not written by the JSON writer of the root store, and the store cannot be loaded back)" % (x, got, want), fn.file, fn.line)
     except (Unknown, Panic) as e:
         ctx.report(r, "unevaluated", "RelationMap::get could not be evaluated (%s)" % e, fn.file, fn.line)
+
+
+def exclusive_rule(ctx, syn, rid="C01.EXCLUSIVE"):
+    """ExclusiveRelationMap (annotation -> the one sub-store it belongs to): insert replaces, evaluated from its syntax tree"""
+    from formula import Evaluator, Unknown, Panic, StructVal, some, is_some
+    r = ctx.rule(rid, "ExclusiveRelationMap::insert(x, y) makes y the value of x also when x had a value before (an annotation moved to another sub-store is written with that sub-store)")
+    fs = dict((f.name, f) for f in syn.fns if f.file == "src/store.rs" and (f.self_ty or "").startswith("ExclusiveRelationMap<") and f.trait is None and f.body is not None)
+    if "insert" not in fs or "get" not in fs:
+        ctx.anchor_missing(r, "ExclusiveRelationMap::insert / get")
+        return
+    ctx.functions_analysed.update([fs["insert"].qual, fs["get"].qual])
+
+    class Cell(object):
+        def __init__(self, d, k):
+            self.d, self.k = d, k
+    hooks = {}
+    hooks["contains_key"] = lambda ev, recv, args, node, env: (args[0] in recv) if isinstance(recv, dict) and not isinstance(recv, StructVal) else NotImplemented
+
+    def h_get(ev, recv, args, node, env):
+        if isinstance(recv, dict) and not isinstance(recv, StructVal):
+            return some(recv[args[0]]) if args[0] in recv else None
+        return NotImplemented
+    hooks["get"] = h_get
+    hooks["copied"] = lambda ev, recv, args, node, env: recv
+    hooks["cloned"] = hooks["copied"]
+
+    def h_get_mut(ev, recv, args, node, env):
+        if isinstance(recv, dict) and not isinstance(recv, StructVal):
+            if args[0] not in recv:
+                return None
+            c = StructVal("Cell", {"v": recv[args[0]]})
+            c._backing = (recv, args[0])
+            cells.append(c)
+            return some(c)
+        return NotImplemented
+    hooks["get_mut"] = h_get_mut
+
+    def h_insert(ev, recv, args, node, env):
+        if isinstance(recv, dict) and not isinstance(recv, StructVal) and len(args) == 2:
+            old = recv.get(args[0])
+            recv[args[0]] = args[1]
+            return some(old) if old is not None else None
+        return NotImplemented
+    hooks["insert"] = h_insert
+    hooks["entry"] = lambda ev, recv, args, node, env: ("entry", recv, args[0]) if isinstance(recv, dict) and not isinstance(recv, StructVal) else NotImplemented
+
+    def or_insert(ev, recv, args, node, env):
+        if isinstance(recv, tuple) and recv and recv[0] == "entry":
+            recv[1].setdefault(recv[2], args[0])
+            return recv[1][recv[2]]
+        return NotImplemented
+    hooks["or_insert"] = or_insert
+
+    def and_modify_insert(ev, recv, args, node, env):
+        return NotImplemented
+    cells = []
+
+    def do(name, m, *args):
+        f = fs[name]
+        params = [p_["pat"].get("name") for p_ in f.sig["inputs"]]
+        res = Evaluator(hooks=hooks).run_body(f.body, dict([("self", m)] + list(zip(params, args))))
+        for c in cells:      # write back `*entry = y`
+            c._backing[0][c._backing[1]] = c["v"]
+        del cells[:]
+        return res
+    try:
+        m = StructVal("ExclusiveRelationMap", {"data": {}})
+        do("insert", m, 1, 5)
+        do("insert", m, 2, 7)
+        do("insert", m, 1, 6)
+        g1, g2, g3 = do("get", m, 1), do("get", m, 2), do("get", m, 3)
+        v = lambda g: (g[1] if is_some(g) else None)
+        r.hit("insert-replaces", sample={"inserted": [(1, 5), (2, 7), (1, 6)], "get(1)": repr(v(g1)), "get(2)": repr(v(g2)), "get(3)": repr(v(g3))})
+        if (v(g1), v(g2), v(g3)) != (6, 7, None):
+            ctx.report(r, "insert-replaces", "after insert(1,5), insert(2,7), insert(1,6) the map answers get(1)=%r get(2)=%r get(3)=%r; expected 6, 7, None: an annotation that is moved to another sub-store stays registered with the old one and is written into the wrong file" % (v(g1), v(g2), v(g3)), fs["insert"].file, fs["insert"].line)
+    except (Unknown, Panic) as e:
+        ctx.report(r, "unevaluated", "ExclusiveRelationMap::insert/get could not be evaluated (%s)" % e, fs["insert"].file, fs["insert"].line)
 
 
 class TList(list):
